@@ -39,7 +39,9 @@ def gen_date(rng):
             rng.choice([1999, 2000, 2021, 2038]), rng.randint(1, 12), rng.randint(1, 28), rng.randint(0, 23), rng.randint(0, 59),
             rng.randint(0, 59), rng.choice(['', '', '.%06d' % rng.randrange(10 ** 6), '.5', '.12345678901']),
             rng.choice(['+00:00', '-00:00', '+01:00', '-05:00', '+05:30', '-03:30', '-00:30', '+05:45', '-09:30', '+14:00', '-12:00',
-                        '+23:59', '-23:59', '+24:00', '-24:00', '+25:00', '+00:60', '+12:99']))
+                        '+23:59', '-23:59', '+24:00', '-24:00', '+25:00', '+00:60', '+12:99',
+                        # local mean times: offsets with seconds
+                        '+05:21:10', '-04:27:40', '-03:30:52', '+00:00:01', '-23:59:59', '+23:59:60', '+05:21:1', '+05:21:100']))
     return '%04d-%02d-%02d %02d:%02d:%02d.%06d' % (rng.choice([1999, 2000, 2021, 2038]), rng.randint(1, 12), rng.randint(1, 28),
                                                      rng.randint(0, 23), rng.randint(0, 59), rng.randint(0, 59),
                                                      rng.choice([rng.randrange(10 ** 6), rng.randrange(10 ** 6), 1001, 249, 999999]))
@@ -157,9 +159,9 @@ def dt_json(x):
     d = {'dt': [x.year, x.month, x.day, x.hour, x.minute, x.second, x.microsecond]}
     if x.tzinfo is not None:
         secs = x.utcoffset().total_seconds()
-        if secs != int(secs) or int(secs) % 60:
-            raise ValueError('offset with seconds: outside the model')
-        d['off'] = int(secs) // 60
+        if secs != int(secs):
+            raise ValueError('offset with a fraction of a second: outside the model')
+        d['off'] = int(secs)              # (in seconds: local mean times have offsets that are no whole minutes)
     return d
 
 
@@ -221,8 +223,8 @@ class C09(core.Prop):
             'distinct by content')
     trusted_base = [
         'the translator harness/translate.py (METADATA_KEYS and the guards of the two metadata loops of base.py) that regenerates Generated/Meta.lean',
-        'date bounds carrying a UTC offset are modelled for whole-minute offsets (the RTZ layout of get_date, +HH:MM / -HH:MM as '
-        'str() writes them); an offset with seconds (local mean time zones) is not matched by RTZ and stays text in code and model',
+        'date bounds carrying a UTC offset are modelled for offsets of whole seconds (the RTZ layout of get_date, +HH:MM / -HH:MM and '
+        '+HH:MM:SS as str() writes them); an offset with a fraction of a second is not matched by RTZ and stays text in code and model',
         'the json library (json.dumps / json.loads) is not modelled: its contract loads(dumps(x)) = x and the layout of '
         'dumps(indent=4) (one structural newline per line, no trailing blanks, strings quoted) are assumed and exercised',
     ]
@@ -292,7 +294,8 @@ class C09(core.Prop):
         rng = random.Random('d' + json.dumps(case, sort_keys=True, default=str))
         base = rng.choice(DATES + [d_ + o_ for d_ in DATES[1:4] + ['2020-01-02', '2021-02-30 10:00:00', '2020-01-02 03:04:05\n']
                                    for o_ in ('+00:00', '-03:30', '-00:30', '+05:45', '+24:00', '-23:59', '+1:00', '+01:0', '+0100',
-                                              ' +01:00', '+01:00:00', 'Z', '+01:00\n', '-00:00')] + ['2021-02-30', '2020-13-01', '2020-1-2', '2020-01-02 3:04:05', '2020-01-02 03:04:05.5',
+                                              ' +01:00', '+01:00:00', 'Z', '+01:00\n', '-00:00', '+05:21:10', '-03:30:52', '+05:21:10\n',
+                                              '+05:21:1', '-00:00:30', '+24:00:00', '+23:59:59')] + ['2021-02-30', '2020-13-01', '2020-1-2', '2020-01-02 3:04:05', '2020-01-02 03:04:05.5',
                                    '2020-01-02 03:04', '20200102', '2020-01-02x', '2020-01-02\n', '0000-01-01',
                                    '2020-01-02 24:00:00', '2020-01-02 03:04:05.1234567', 'abc', '',
                                    '2020-01-02 03:04:05.12345678901', '2020-01-02 03:04:05.2147483648+01:00', '2020-01-02 03:04:05.999999',
